@@ -177,7 +177,7 @@ func leafReflect(id string) (reflect.Type, error) {
 	return nil, fmt.Errorf("unknown leaf %q", id)
 }
 
-const tlTag = `json:"f,omitempty" x:"1"`
+const tlTag = `json:"f,omitempty" x:"1" layout:"%Y-%m-%d 100%"`
 
 func embeddedName(t types.Type) string {
 	if n, ok := t.(*types.Named); ok {
@@ -322,7 +322,8 @@ func (typelitFam) Exec(c core.CaseIn, rng *rand.Rand, emit func(cas, conc, obs a
 	if err != nil {
 		return err
 	}
-	targetPath := map[string]string{"fixt": fixtPath, "fixt2": fixt2Path, "clash-pre": fixt2Path}[tc.Target]
+	// "dotted": the file being written belongs to the package whose directory is dotted.v3 (a dot in the last path element)
+	targetPath := map[string]string{"fixt": fixtPath, "fixt2": fixt2Path, "clash-pre": fixt2Path, "dotted": dottedPath}[tc.Target]
 	if targetPath == "" {
 		return fmt.Errorf("unknown target %q", tc.Target)
 	}
@@ -372,7 +373,7 @@ func (typelitFam) Exec(c core.CaseIn, rng *rand.Rand, emit func(cas, conc, obs a
 		}
 		obs["got"], obs["check_errors"] = got, errs
 	}
-	cas := map[string]any{"tree": tc.Tree, "target": map[string]string{"fixt": "fixt", "fixt2": "fixt2", "clash-pre": "fixt2"}[tc.Target], "scenario": tc.Target, "view": tc.View}
+	cas := map[string]any{"tree": tc.Tree, "target": map[string]string{"fixt": "fixt", "fixt2": "fixt2", "clash-pre": "fixt2", "dotted": "dotted"}[tc.Target], "scenario": tc.Target, "view": tc.View}
 	var m map[string]any
 	_ = json.Unmarshal(c.Case, &m)
 	cas["mentions"] = m["mentions"]
